@@ -244,8 +244,27 @@ def e2e_case(ctx, form, record=True) -> None:
         ctx.record({"form": form}, answered)
 
 
+# the workbook of the non-vacuity example in lean/Pyxv/Proofs/Convert.lean (`exWb`): the theorem `ex_convert` pins the
+# model's text for it to the literal `exText`; running it here ties that literal to pyxform's own output
+EX_WB = {
+    "survey": [
+        {"type": "text", "name": "q", "label": "Q & A"},
+        {"type": "select_one yn", "name": "s", "label": "S"},
+        {"type": "begin repeat", "name": "r", "label": "R", "relevant": "${q} = 'a'"},
+        {"type": "integer", "name": "n", "label": "N"},
+        {"type": "end repeat"},
+    ],
+    "choices": [{"list_name": "yn", "name": "y", "label": "Yes"}],
+    "settings": [{"form_id": "f1"}],
+}
+
+
 def e2e_corr(ctx, n: int, big: bool = False, record: bool = False) -> None:
     """`n` generated workbooks through pyxform and through `convert.model`; byte-level comparison."""
+    before = ctx.dist.get("e2e:byte-exact", 0)
+    e2e_case(ctx, copy.deepcopy(EX_WB), record=record)
+    if ctx.dist.get("e2e:byte-exact", 0) != before + 1 and not ctx.mismatches:
+        ctx.mismatch("e2e: the example workbook of Proofs/Convert.lean is not converted byte-exactly", {"form": EX_WB}, "?", "?")
     for _ in range(n):
         e2e_case(ctx, fragment_form(ctx.rng, big=big), record=record)
     tot = ctx.dist.get("e2e:answered", 0) + ctx.dist.get("e2e:unsupported", 0)
